@@ -28,7 +28,9 @@ Handle(ep, ev, declined) ==
       [] ev.t = "attach" -> Attach(Clr(ep), "KEEP")
       [] ev.t = "tick" -> HeartbeatTick(Clr(ep), ev.now, ev.H, TRUE)
       \* time advances by one unit of 1/S second; the heartbeat task wakes iff a wake-up is due then
-      [] ev.t = "adv" -> IF ev.wake THEN HeartbeatTickS(Clr(ep), ev.now, ev.H, ev.S, TRUE) ELSE Clr(ep)
+      \* faildrain: whatever the heartbeat task writes in this quarter is handed to the transport, then drain() raises
+      [] ev.t = "adv" -> IF ev.wake THEN HeartbeatTickS(Clr(ep), ev.now, ev.H, ev.S, ~("faildrain" \in DOMAIN ev /\ ev.faildrain))
+                         ELSE Clr(ep)
       [] OTHER -> Clr(ep)
 
 \* ---- relative events (what TLC enumerates and the harness concretises against the real object) ----
